@@ -8,7 +8,7 @@ RULE = ('TLC checks the iteration guarantee on the implementation-shaped cursor 
         'skip schedule); on the real server full cursor iterations of SCAN/HSCAN/SSCAN/ZSCAN with every COUNT from 1, MATCH '
         'globs and TYPE run while other elements are added and deleted between calls (TLC-found skip schedules first, then '
         'seeded random ones, then large collections in which MATCH selects a handful of elements so that many calls in a row '
-        'return nothing); the trace spec keeps per iteration the sets stable/ever/returned and requires, when the cursor '
+        'return nothing, then MATCH over the glob matrix — every pattern over {a,b,*,?} up to length 3/4 plus classes, escapes and overlapping false starts against every subject over {a,b} up to length 4/5); the trace spec keeps per iteration the sets stable/ever/returned and requires, when the cursor '
         'returns to 0, returned >= stable, returned <= ever, and termination when nothing grows. Distinct = distinct iteration.')
 ASSUMPTIONS = ['one open iteration per (connection, db, command, key); a cursor the spec did not hand out is Unspecified']
 
@@ -154,6 +154,45 @@ def sparse_iterations(ctx, srv, sizes, counts):
     return done
 
 
+def glob_iterations(ctx, srv):
+    """MATCH over the glob matrix (workloads.glob_matrix: every pattern over {a,b,*,?} up to a length, classes, escapes,
+    overlapping false starts) against every subject over {a,b} up to a length, for all four commands: a full iteration
+    must return exactly the matching elements."""
+    pats, subs = workloads.glob_matrix(ctx.quick)
+    rnd = ctx.rnd
+    done = 0
+    for kind in ('SCAN', 'HSCAN', 'SSCAN', 'ZSCAN'):
+        s = workloads.fresh_session(ctx, srv, 'globs')
+        try:
+            c = s.open()
+            s.cmd(c, [b'FLUSHALL'])
+            key = None
+            if kind == 'SCAN':
+                for i in range(0, len(subs), 20):
+                    s.cmd(c, [b'MSET'] + [x for e in subs[i:i + 20] for x in (e, b'v')])
+            elif kind == 'HSCAN':
+                key = b'H'
+                s.cmd(c, [b'HSET', key] + [x for e in subs for x in (e, b'v')])
+            elif kind == 'SSCAN':
+                key = b'S'
+                s.cmd(c, [b'SADD', key] + subs)
+            else:
+                key = b'Z'
+                s.cmd(c, [b'ZADD', key] + [x for i, e in enumerate(subs) for x in (str(i % 3).encode(), e)])
+            for i, p in enumerate(pats):
+                if ctx.quick and (i + done) % 2 and len(p) <= 3 and kind != 'SCAN':
+                    continue
+                iterate(s, c, kind.encode(), key, rnd.choice([1000, 1000, 7, None]), rnd, lambda: None, p, None)
+                done += 1
+        except ServerDied:
+            pass
+        s.close_all()
+        ctx.validate(s.trace, label='globs-' + kind)
+        if not srv.alive():
+            srv.restart()
+    return done
+
+
 def skip_schedule(ctx, srv):
     """The schedule TLC finds on the pinned design: delete an element that sorts before the cursor."""
     s = workloads.fresh_session(ctx, srv, 'skip')
@@ -202,6 +241,9 @@ def run(ctx):
     for i in range(4 if ctx.quick else 30):
         n += run_iterations(ctx, srv, 12 if ctx.quick else 40, 'scan%d' % i)
     n += sparse_iterations(ctx, srv, [60] if ctx.quick else [60, 150, 400], [1, 3] if ctx.quick else [1, 2, 3, 10, 25])
+    ng = glob_iterations(ctx, srv)
+    ctx.extra_cov['glob_iterations'] = ng
+    n += ng
     ctx.extra_cov['iterations'] = n
     ctx.extra_cov['distinct_cases'] = n + 4
 
